@@ -162,3 +162,41 @@ Definition run (hs : list header) : mstate * list bool := run_from NewModules hs
 Definition final (hs : list header) : mstate := fst (run hs).
 Definition verdicts (hs : list header) : list bool := snd (run hs).
 Definition verdicts_old (hs : list header) : list bool := snd (run_with add_old NewModules hs).
+
+(* ---- Modules.Parse of one text holding several top-level statements (headers), all or nothing:
+   every statement is first checked against ms.loaded as it was before the text (checkAdd) and
+   against the statements before it in the same text (the local map `seen`); only when all pass
+   are they added, in written order.  true = nil error. ---- *)
+Fixpoint check_text (st : mstate) (seen : list str) (hs : list header) : bool :=
+  match hs with
+  | [] => true
+  | h :: t =>
+      let key := lkey (h_kind h) (FullName h) in
+      match mget (Loaded st) key with
+      | Some _ => false                                 (* checkAdd: duplicate of a loaded one *)
+      | None =>
+          if existsb (str_eqb key) seen then false      (* duplicate inside the text *)
+          else check_text st (key :: seen) t
+      end
+  end.
+
+Fixpoint add_all (st : mstate) (hs : list header) : mstate * bool :=
+  match hs with
+  | [] => (st, true)
+  | h :: t =>
+      let '(st1, ok) := add st h in
+      if ok then add_all st1 t else (st1, false)        (* "return err" in the second loop *)
+  end.
+
+Definition parse_text (st : mstate) (hs : list header) : mstate * bool :=
+  if check_text st [] hs then add_all st hs else (st, false).
+
+(* a load history: successive Parse calls, each with the headers of one text *)
+Fixpoint parse_texts (st : mstate) (texts : list (list header)) : mstate * list bool :=
+  match texts with
+  | [] => (st, [])
+  | hs :: rest =>
+      let '(st1, ok) := parse_text st hs in
+      let '(st2, oks) := parse_texts st1 rest in
+      (st2, ok :: oks)
+  end.
